@@ -599,7 +599,8 @@ def get_binsize_all_bins(ctx):
         # the value returned is the common width of the non-last bins
         vals = [x for x in T.walk(r.value) if x[0] == 'call' and x[1] == G('next')]
         ctx.check(bool(vals), R, f'return#{k}.value', ctx.where(fa, r), found=r.value, expected='the single common width')
-        one = [c for c, p in r.guards if p and c[0] == 'cmp' and c[1] == '==' and C(1) in (c[2], c[3])
+        truth = [(c if p else T.not_(c)) for c, p in r.guards]
+        one = [c for c in truth if c[0] == 'cmp' and c[1] == '==' and C(1) in (c[2], c[3])
                and any(x[0] == 'call' and x[1] == G('len') for x in (c[2], c[3]))]
         ctx.check(bool(one), R, f'return#{k}.single-width', ctx.where(fa, r), found=[T.show(c) for c, p in r.guards],
                   expected='returned only when exactly one distinct width was seen (len(sizes) == 1)')
